@@ -107,6 +107,15 @@ class LangGen:
                         vars=with_vars, exist=with_existence, defs=with_defenses, reuse=reuse_fields)
 
     def gen(self):
+        """A language without two associations that share their name and both asset types (their generated classes
+        collapse — the C06 known finding; C06 has its own stream for them)."""
+        while True:
+            L = self._gen()
+            sigs = [(a['name'], a['leftAsset'], a['rightAsset']) for a in L['associations']]
+            if len(set(sigs)) == len(sigs):
+                return L
+
+    def _gen(self):
         rng, cfg = self.rng, self.cfg
         n = rng.randint(*cfg['n_assets'])
         names = ASSET_NAMES[:n]
@@ -381,3 +390,18 @@ def j_step(s):
             None if not s['requires'] else [j_sexpr(e) for e in s['requires']['stepExpressions']],
             None if s['reaches'] is None else [bool(s['reaches']['overrides']),
                                                [j_sexpr(e) for e in s['reaches']['stepExpressions']]]]
+
+
+def parallel_field_langs():
+    """Languages in which two associations on unrelated asset types use the same pair of field names (field names only
+    have to be unique per asset type)."""
+    out = []
+    for same_name in (False, True):
+        for sub in (False, True):
+            assets = [asset('Aa', None, [step('t', 'or', reaches=[CO(F('itm'), S('u'))])]), asset('Bb', None, [step('u', 'or')]),
+                      asset('Cc', None, [step('t', 'or', reaches=[CO(F('itm'), S('u'))])]), asset('Dd', None, [step('u', 'or')])]
+            if sub:
+                assets.append(asset('Ee', 'Bb', [step('w', 'or')]))
+            out.append(lang(assets, [assoc('Pp', 'Aa', 'own', 'Bb', 'itm', (0, None), (0, None)),
+                                     assoc('Pp' if same_name else 'Qq', 'Cc', 'own', 'Dd', 'itm', (0, 1), (0, None))]))
+    return out
